@@ -17,6 +17,7 @@ import FordModel.LinkSyntax
 import FordModel.Lemmas.LinkSyntax
 import FordModel.LinkWarn
 import FordModel.Lemmas.LinkWarn
+import FordModel.InlineOrder
 namespace Ford.C11
 open Ford Ford.Links
 
@@ -548,6 +549,42 @@ theorem warning_says_where (env : Env) (P : Project) (i : Nat) (c : Ent) (path :
     w.message env P none none = w.body := by
   simp [Warn.message, warnPrefix, hc]
 
+/-! ### Round 6: "references inside code spans or blocks stay verbatim" (the pattern's place among Markdown's inline patterns) -/
+
+/-- **Where the link pattern is registered** (table read from the inline-pattern registry of a live
+    `MetaMarkdown` on every run, listed in the order of application): the priorities never increase
+    along the list; the code-span pattern `backtick` is applied *before* FORD's link pattern, which in
+    turn is applied before Markdown's own bracket syntax (`reference`, `link`, `short_reference`), so
+    that the brackets of a reference reach it untouched; fenced and indented code blocks are taken out
+    by a preprocessor / block processor, i.e. before any inline pattern runs. -/
+theorem link_pattern_position :
+    descending Generated.C11.inlinePatterns = true ∧
+    codeShielded = true ∧
+    (["reference", "link", "short_reference"].all fun n =>
+        appliedBefore Generated.C11.inlinePatterns Generated.C11.linkPatternName n) = true ∧
+    Generated.C11.preprocessors.contains "fenced_code_block" = true ∧
+    Generated.C11.blockProcessors.contains "code" = true := by decide
+
+/-- **Code spans stay verbatim.**  For every project, context, path and every text cut at its code
+    spans (any number of spans, any content - references in any spelling included): with the patterns
+    applied in the registered order, whenever the conversion succeeds every span comes out with its
+    content exactly as written, every piece of running text is converted as `convertText` says, in
+    the order written, nothing added or lost. -/
+theorem code_spans_stay_verbatim (env : Env) (P : Project) (ctx : Option Nat) (path : Option Path)
+    (pieces : List Piece) (out : List OutPiece)
+    (h : convertPieces codeShielded linkCfg env P ctx path pieces = .ok out) :
+    PiecesOk linkCfg env P ctx path pieces out := by
+  rw [link_pattern_position.2.1] at h
+  exact convertPieces_shielded linkCfg env P ctx path pieces out h
+
+/-- ... and a reference inside a code span prints no warning, whether or not it names something. -/
+theorem references_in_code_spans_not_warned (env : Env) (P : Project) (ctx : Option Nat) (path : Option Path)
+    (s : Str) (rest : List Piece) :
+    warnPieces codeShielded linkCfg env P ctx path (.code s :: rest) =
+      warnPieces codeShielded linkCfg env P ctx path rest := by
+  rw [link_pattern_position.2.1]
+  exact warnPieces_shielded_code linkCfg env P ctx path s rest
+
 /-! ### URLs -/
 
 /-- Every URL `get_url` produces has exactly two path segments (`dir/file`), so
@@ -775,5 +812,20 @@ theorem warning_messages_example :
 example : (convertTextW linkCfg W.env W.PF none none
       (renderParts (List.replicate 3 ("x ".toList, ({ name := "gone".toList } : Ref))) (chars! "."))).2
     = List.replicate 3 (.notFound (chars! "[[gone]]") (chars! "gone")) := by decide
+
+/-- **The order of the registry is what protects the spans** (non-vacuity of `code_spans_stay_verbatim`
+    and of its dependence on the table): in the registered order `` `[[m]]` `` stays as written and
+    the absent `[[gone]]` inside a span prints nothing; were the link pattern applied first, the
+    reference inside the span would become a link inside `<code>`. -/
+theorem code_span_order_example :
+    (convertPieces codeShielded linkCfg W.env W.PF (some 2) none
+        [.plain (chars! "see [[m]] and "), .code (chars! "call [[m]](x)"), .plain (chars! " or "), .code (chars! "[[gone]]")]).toOption =
+      some [.segs [.plain (chars! "see "), .link (chars! "m") (chars! "../module/m.html"), .plain (chars! " and ")],
+           .code (chars! "call [[m]](x)"), .segs [.plain (chars! " or ")], .code (chars! "[[gone]]")] ∧
+    warnPieces codeShielded linkCfg W.env W.PF (some 2) none
+        [.plain (chars! "see [[m]] and "), .code (chars! "call [[m]](x)"), .plain (chars! " or "), .code (chars! "[[gone]]")] = [] ∧
+    (convertPieces false linkCfg W.env W.PF (some 2) none [.code (chars! "[[m]]")]).toOption =
+      some [.codeSegs [.link (chars! "m") (chars! "../module/m.html")]] := by
+  decide
 
 end Ford.C11
